@@ -27,6 +27,8 @@ pub struct Cfg {
     pub searches: Vec<(Option<u64>, u8, bool)>,
     /// the fresh node is given its contacts as routers (it never reaches Bootstrapped on this small network)
     pub via_router: bool,
+    /// everything the fresh node sends during its first `uplink_down_ms` is lost
+    pub uplink_down_ms: u64,
     pub rng_seed: u64,
 }
 
@@ -80,6 +82,9 @@ pub fn build(cfg: &Cfg) -> (Scenario, Vec<Box<dyn Peer>>) {
     sc.stop_after = tags;
     sc.linger_ms = 50;
     sc.horizon_ms = T_FRESH + if cfg.via_router { 40_000 } else { 120_000 };
+    if cfg.uplink_down_ms > 0 {
+        sc.blackhole = vec![(fresh_addr(cfg.v6), T_FRESH, T_FRESH + cfg.uplink_down_ms)];
+    }
     let lat = cfg.latency;
     let fa = fresh_addr(cfg.v6);
     sc.link_latency = Arc::new(move |a, b| if a == fa || b == fa { lat } else { 20 });
@@ -152,7 +157,7 @@ pub fn compare(cfg: &Cfg, early: &Obs, late: &Obs) -> Vec<(String, String)> {
 }
 
 fn cfg_json(c: &Cfg) -> Value {
-    json!({"mesh":c.mesh,"v6":c.v6,"contacts":c.contacts,"silent_contact":c.silent_contact,"latency":c.latency,"via_router":c.via_router,"rng_seed":c.rng_seed,
+    json!({"mesh":c.mesh,"v6":c.v6,"contacts":c.contacts,"silent_contact":c.silent_contact,"latency":c.latency,"via_router":c.via_router,"uplink_down_ms":c.uplink_down_ms,"rng_seed":c.rng_seed,
         "searches": c.searches.iter().map(|(o,h,a)| json!([o,h,a])).collect::<Vec<_>>()})
 }
 fn cfg_parse(v: &Value) -> Cfg {
@@ -163,6 +168,7 @@ fn cfg_parse(v: &Value) -> Cfg {
         silent_contact: v["silent_contact"].as_bool().unwrap_or(false),
         latency: v["latency"].as_u64().unwrap_or(20),
         via_router: v["via_router"].as_bool().unwrap_or(false),
+        uplink_down_ms: v["uplink_down_ms"].as_u64().unwrap_or(0),
         rng_seed: v["rng_seed"].as_u64().unwrap_or(1),
         searches: v["searches"].as_array().map(|a| a.iter().map(|s| (s[0].as_u64(), s[1].as_u64().unwrap_or(0) as u8, s[2].as_bool().unwrap_or(false))).collect()).unwrap_or_default(),
     }
@@ -201,7 +207,7 @@ pub fn run(tier: Tier) -> Report {
                     if v6 && latency == 480 {
                         continue;
                     }
-                    bases.push(Cfg { mesh, v6, contacts: contacts.clone(), silent_contact: silent, latency, searches: vec![], via_router: false, rng_seed: seed });
+                    bases.push(Cfg { mesh, v6, contacts: contacts.clone(), silent_contact: silent, latency, searches: vec![], via_router: false, uplink_down_ms: 0, rng_seed: seed });
                 }
             }
         }
@@ -244,12 +250,18 @@ pub fn run(tier: Tier) -> Report {
         c.searches = vec![(Some(0), 1, true), (Some(mid.min(tb.saturating_sub(1))), 0, false)];
         work.push(c);
     }
+    // long bootstraps: the fresh node's uplink is dead for 3 / 12 / 35 / 70 s (attempts fail and back off)
+    for down in [3_000u64, 12_000, 35_000, 70_000] {
+        for o in [0u64, 1_000, 29_000, 31_000] {
+            work.push(Cfg { mesh: 2, v6: false, contacts: vec![0], silent_contact: false, latency: 20, searches: vec![(Some(o), 0, false), (Some(o + 5), 0, true)], via_router: false, uplink_down_ms: down, rng_seed: seed });
+        }
+    }
     // routers only: the node works from the routers' answers without ever being "Bootstrapped"
     for mesh in [2usize, 3] {
         for latency in [1u64, 200] {
             for o in [0u64, 1, 2 * latency + 2, 3_000, 6_000] {
                 for ann in [false, true] {
-                    work.push(Cfg { mesh, v6: false, contacts: vec![0], silent_contact: false, latency, searches: vec![(Some(o), 0, ann)], via_router: true, rng_seed: seed });
+                    work.push(Cfg { mesh, v6: false, contacts: vec![0], silent_contact: false, latency, searches: vec![(Some(o), 0, ann)], via_router: true, uplink_down_ms: 0, rng_seed: seed });
                 }
             }
         }
